@@ -26,7 +26,7 @@ def main():
         rc_all = 0
         for c in checks:
             r = subprocess.run(["/verif/check", c], env=env, stdout=subprocess.PIPE, stderr=subprocess.STDOUT, text=True)
-            lines = [l for l in r.stdout.splitlines() if l.startswith("  finding") or l.startswith("ANALYSIS-ERROR") or l.startswith("KNOWN")]
+            lines = [l for l in r.stdout.splitlines() if l.startswith("  finding") or l.startswith("ANALYSIS-ERROR")]
             print("%s rc=%d %s" % (c, r.returncode, " | ".join(l.strip()[:160] for l in lines[:4])))
             rc_all |= r.returncode
         return 0
